@@ -85,6 +85,7 @@ class CreateTable(ASTNode):
         columns_str = ''
         if self.columns is not None:
             columns = []
+            primary_keys = []
             for col in self.columns:
 
                 if not isinstance(col.type, str) and sa_types is not None:
@@ -99,11 +100,17 @@ class CreateTable(ASTNode):
                 if col.length is not None:
                     type = f'{type}({col.length})'
                 col_str = f'{col.name} {type}'
+                if col.default is not None:
+                    col_str += f' DEFAULT {col.default}'
+                if col.is_primary_key:
+                    primary_keys.append(str(col.name))
                 if col.nullable is True:
                     col_str += ' NULL'
                 elif col.nullable is False:
                     col_str += ' NOT NULL'
                 columns.append(col_str)
+            if primary_keys:
+                columns.append('PRIMARY KEY ({})'.format(', '.join(primary_keys)))
 
             columns_str = '({})'.format(', '.join(columns))
 
